@@ -54,3 +54,6 @@ pub mod syn_parse {
     { unimplemented!() }
     }
 }
+
+verus! {
+}
